@@ -87,5 +87,8 @@ ExactSolutionIsFixedPoint ==
 \* with a zero column the voxel nobody sees keeps its value in the unconstrained variant
 UnseenVoxelKeepsValue == beta = 0 => \A l \in Cols : ColSum(W, l)[1] = 0 => x[l] = x0[l]
 
-EmitFinal == done => PrintT(ToJson([W |-> W, b |-> b, x0 |-> x0, relax |-> RelaxVal(relax), beta |-> BetaVal(beta), lap |-> lap, L |-> LMat(lap), iters |-> k, x |-> x, conv |-> conv]))
+\* the iteration is unchanged when the geometry matrix and the measurements are multiplied by the same factor (the update divides
+\* by the row and column sums), so the iterate of (c W, c b) is the iterate of (W, b): compared at c = 10^e for these exponents
+ScaleExps == <<0, 6, -12>>
+EmitFinal == done => PrintT(ToJson([scale_exps |-> ScaleExps, W |-> W, b |-> b, x0 |-> x0, relax |-> RelaxVal(relax), beta |-> BetaVal(beta), lap |-> lap, L |-> LMat(lap), iters |-> k, x |-> x, conv |-> conv]))
 =============================================================================
